@@ -1,18 +1,25 @@
 (* C14  gram handles every input without crashing and reports failure faithfully.
    Proved for the models: the tokenizer never reaches its panic site and is a structural recursion
    on the input (so it terminates); a failing tokenizer or parser model returns a non-empty error
-   list; the parser model runs on explicit fuel proportional to the input. That the parser model
-   never reaches the re-association / resolution panic sites (C14_parse_no_panic_statement) is
-   checked on every explored input (a model result PPanic is a reported disagreement) and is not yet
-   a theorem. Panics, aborts and the process-level contract of the real binary are explored by the
-   library and CLI streams. *)
+   list; the parser model runs on explicit fuel proportional to the input; and, for every token
+   list, the mirror of parse() never reaches a panic site: a tree that contains an error node always
+   carries an error factory, so it never reaches the re-association passes ([ref:error_check]), and
+   check_definitions never meets a hole with a non-zero shift (C14_parse_never_panics). That the
+   fuel always suffices (C14_parse_fuel_statement) is checked on every explored input (a model
+   result POutOfFuel is a reported disagreement) and is not yet a theorem. Panics, aborts and the
+   process-level contract of the real binary are explored by the library and CLI streams. *)
 From Coq Require Import List ZArith NArith Bool Arith.
 Import ListNotations.
 Require Import Gram.Model.Term Gram.Model.Token Gram.Gen.TokenTables Gram.Model.Tokenizer Gram.Proofs.TokenizerProofs.
-Require Import Gram.Model.Grammar Gram.Model.Parser Gram.Model.ParserPost Gram.Proofs.ContractProofs.
+Require Import Gram.Model.Grammar Gram.Model.Parser Gram.Model.ParserPost Gram.Proofs.ContractProofs Gram.Proofs.PanicProofs.
 
-Definition C14_parse_no_panic_statement : Prop :=
-  forall toks ctx, fst (fst (parse_top toks true ctx)) <> PPanic /\ fst (fst (parse_top toks true ctx)) <> POutOfFuel.
+Definition C14_parse_fuel_statement : Prop :=
+  forall toks ctx, fst (fst (parse_top toks true ctx)) <> POutOfFuel.
+
+Theorem C14_parse_never_panics : forall toks memo ctx, fst (fst (parse_top toks memo ctx)) <> PPanic.
+Proof. exact parse_top_never_panics. Qed.
+Check C14_parse_never_panics : forall toks memo ctx, fst (fst (parse_top toks memo ctx)) <> PPanic.
+Print Assumptions C14_parse_never_panics.
 
 Theorem C14_tokenize_no_panic : forall gend cs, tokenize gend cs <> Panic.
 Proof. exact tokenize_no_panic. Qed.
